@@ -76,6 +76,9 @@ fn(HK + ".accept", params={"subprotocol": "none | str", "additional_headers": "a
               # added (that the loop then only appends is by inspection: headers.append is its only statement
               # besides a raise)
               "entry_ensures": [
+                  # C10 "compressed or not ... same type and payload": the permessage-deflate object holds the
+                  # compression state of ONE connection; the one offered to the new connection is created for it
+                  ("C10.accept.own-extension", "len(extensions) == 1 and n_emitted('ws_ext_new') == 1 and same(extensions[0], emitted('ws_ext_new')[0])", "C10,C11"),
                   ("C11.accept.token", "implies(self.key is not None, any(h[0] == b'sec-websocket-accept' and h[1] == generate_accept_token(self.key) for h in headers))", "C11"),
                   ("C11.accept.subprotocol-header", "implies(subprotocol is not None and is_ascii(subprotocol), headers[0] == (b'sec-websocket-protocol', subprotocol.encode()))", "C11"),
                   ("C11.accept.upgrade-headers", "implies(self.http_version == '1.1', any(h[0] == b'upgrade' and h[1] == b'WebSocket' for h in headers) and any(h[0] == b'connection' and h[1] == b'Upgrade' for h in headers))", "C11"),
@@ -83,6 +86,9 @@ fn(HK + ".accept", params={"subprotocol": "none | str", "additional_headers": "a
               }},
    ensures=[
        ("C11.accept.status", "result[0] == (101 if self.http_version == '1.1' else 200)", "C11"),
+       # C10 "compressed or not ... same type and payload": the permessage-deflate object holds the
+       # compression state of ONE connection; the one handed to the new connection is created for it
+       ("C10.accept.extension-passed", "n_after_gap('ws_conn_new') == 1 and same(after_gap('ws_conn_new')[0][1], local('extensions'))", "C10,C11"),
        ("C11.accept.accepted", "self.accepted", "C11"),
        ("C11.accept.subprotocol-offered", "implies(subprotocol is not None, self.subprotocols is not None and subprotocol in self.subprotocols)", "C11"),
    ],
@@ -253,6 +259,9 @@ fn(WS + ".app_send", params={"message": "none | msg(headers:short)"}, task="app"
        # clause is stated on what the application supplied; the denial response is covered by
        # C11.denial.head: its headers are the validated list)
        ("C12.accept.headers-validated", "implies(count_calls('Handshake.accept') == 1, no_ctl_chars(call_args('Handshake.accept')[2]) and no_pseudo_names(call_args('Handshake.accept')[2]))", "C12"),
+       # C03 "exactly one access-log record": no application message, and not the application's
+       # return either, writes two records (the 500 of a failed handshake used to be logged twice)
+       ("C03.ws.access.once-per-call", "count_calls('Logger.access') <= 1", "C03"),
        ("C10.send.bytes", "implies(n_emitted('ws') == 1 and isinstance(emitted('ws')[0], BytesMessage) and not old(self.closed) and message is not None and message['type'] == 'websocket.send' and tagis(message['bytes'], 'bytes'), "
         "emitted('ws')[0].data == message['bytes'])", "C10"),
        ("C10.send.text", "implies(n_emitted('ws') == 1 and isinstance(emitted('ws')[0], TextMessage) and not old(self.closed) and message is not None and message['type'] == 'websocket.send', "
